@@ -11,8 +11,13 @@ A scenario is a list of ops mirroring Model/Blocks.v `wop`:
                         constraint in pep._list_of_constraints_sent_to_wrapper (the PEP has nothing else to send)
   ("WGet", p, obj, k)   partitions[p].get_block(objects[obj], k); on the first decomposition of an object the d
                         block objects become objects number len(objects) ... len(objects)+d-1
+  ("WGetT", p, tree, ks) a TEMPORARY: the combination `tree` is built inline inside a helper, decomposed, blocks ks are
+                        asked, and every reference to the combination is dropped (only its blocks survive, as objects).
+                        For the model this is WTerm tree; WGet p n k ... (the history of get_block calls decides who was
+                        decomposed); the harness keeps None at object number n and never refers to it again.
   ("WCons", p)          partitions[p].add_partition_constraints(); dump of partitions[p].list_of_constraints
 Objects are identified by identity (IdMap); leaf points by their `counter`."""
+import gc
 import random
 from fractions import Fraction
 
@@ -33,6 +38,24 @@ def gen_scenario(rng, nops=None, max_dec=4):
     parts = []                # d of each partition
     dec = []                  # per partition: list of decomposed object numbers
     twins = []                # pairs of distinct objects with equal decomposition
+    dead = set()              # object numbers of temporaries (nothing may refer to them any more)
+    ndec = {}                 # decomposed objects per partition, temporaries included
+
+    def live(v):
+        while v in dead:
+            v = (v - 1) % nobj
+        return v
+
+    def remap(t):             # a generated tree must not mention a dead temporary
+        if t[0] == "PVar":
+            return ("PVar", live(t[1]))
+        return tuple(remap(x) if isinstance(x, tuple) else x for x in t)
+
+    def fresh_tree():
+        t = remap(T.gen_point(rng, rng.choice([1, 2, 2, 3]), nobj))
+        if t[0] == "PVar":          # a bare variable is the SAME object; `1 * x` is a new one with x's dictionary
+            t = ("PScalL", 1, t)
+        return t
     for _ in range(rng.randint(1, 3)):
         ops.append(("WLeaf",))
         nobj += 1
@@ -52,9 +75,7 @@ def gen_scenario(rng, nops=None, max_dec=4):
             ops.append(("WLeaf",))
             nobj += 1
         elif r < 0.30:
-            t = T.gen_point(rng, rng.choice([1, 2, 2, 3]), nobj)
-            if t[0] == "PVar":          # a bare variable is the SAME object; `1 * x` is a new one with x's dictionary
-                t = ("PScalL", 1, t)
+            t = fresh_tree()
             ops.append(("WTerm", t))
             nobj += 1
             if rng.random() < 0.4:      # a second, distinct object with the same decomposition
@@ -67,6 +88,21 @@ def gen_scenario(rng, nops=None, max_dec=4):
             ops.append(("WCons", rng.randrange(len(parts))))
         elif r < 0.48 and mid_solve:
             ops.append(("WSolve",))
+        elif r < 0.60 and ndec.get(len(parts) - 1, 0) < max_dec:
+            # a temporary combination decomposed inline: g + beta * (x - x_prev) style
+            p = rng.randrange(len(parts))
+            if ndec.get(p, 0) >= max_dec:
+                p = len(parts) - 1
+            d = parts[p]
+            ks = rng.sample(range(d), rng.randint(1, d))
+            if rng.random() < 0.03:
+                ks = [d]
+            ops.append(("WGetT", p, fresh_tree(), ks))
+            dead.add(nobj)
+            nobj += 1
+            if ks[0] < d:
+                ndec[p] = ndec.get(p, 0) + 1
+                nobj += d
         else:
             p = rng.randrange(len(parts))
             d = parts[p]
@@ -77,7 +113,10 @@ def gen_scenario(rng, nops=None, max_dec=4):
                 obj = rng.choice(rng.choice(twins))      # one of two equal-decomposition objects
             else:
                 obj = rng.randrange(nobj)                # leaf, combination, or a block of some partition
-            if obj not in dec[p] and len(dec[p]) >= max_dec:
+            obj = live(obj)
+            if obj not in dec[p] and ndec.get(p, 0) >= max_dec:
+                if not dec[p]:
+                    continue
                 obj = rng.choice(dec[p])
             k = rng.randrange(d)
             if rng.random() < 0.03:
@@ -85,6 +124,7 @@ def gen_scenario(rng, nops=None, max_dec=4):
             ops.append(("WGet", p, obj, k))
             if k < d and obj not in dec[p]:
                 dec[p].append(obj)
+                ndec[p] = ndec.get(p, 0) + 1
                 nobj += d
             if k < d and rng.random() < 0.5:             # ask for the other blocks too
                 for k2 in rng.sample(range(d), d):
@@ -122,8 +162,34 @@ def coq_op(op):
     raise ValueError(h)
 
 
+def flatten(ops):
+    """model-level op list: a temporary is a WTerm followed by the WGet calls on the object it created"""
+    out, nobj, ds, dec = [], 0, [], set()
+    for op in ops:
+        h = op[0]
+        if h == "WGetT":
+            _, p, tree, ks = op
+            out.append(("WTerm", tree))
+            for k in ks:
+                out.append(("WGet", p, nobj, k))
+            if any(k < ds[p] for k in ks):
+                dec.add((p, nobj))
+                nobj += ds[p]
+            nobj += 1
+            continue
+        out.append(op)
+        if h in ("WLeaf", "WTerm"):
+            nobj += 1
+        elif h == "WPart":
+            ds.append(op[1])
+        elif h == "WGet" and op[3] < ds[op[1]] and (op[1], op[2]) not in dec:
+            dec.add((op[1], op[2]))
+            nobj += ds[op[1]]
+    return out
+
+
 def coq_scenario(ops):
-    return coq_list([coq_op(o) for o in ops])
+    return coq_list([coq_op(o) for o in flatten(ops)])
 
 
 # ------------------------------------------------------------------ implementation side
@@ -169,9 +235,25 @@ class Run(object):
         self.hist = {}
         self.values = values      # optional ValueTracker (real coordinate partitions)
         self.ncons = {}
+        self.flat_ops = flatten(ops)
         for i, op in enumerate(ops):
             self.hist[op[0]] = self.hist.get(op[0], 0) + 1
-            self.outputs.append(self.step(i, op))
+            if op[0] == "WGetT":
+                self.outputs += _temporary(self, i, op)
+                self.ntemp = getattr(self, "ntemp", 0) + 1
+            else:
+                self.outputs.append(self.step(i, op))
+
+    def collect(self):
+        """garbage collection before the relations are formulated (only useful once a temporary was dropped)"""
+        if getattr(self, "dirty", False):
+            _freeze_once()
+            gc.collect()
+            self.dirty = False
+
+    def n_decomposed(self, p):
+        """how many points partition p was asked to decompose (the harness's own count: the history of calls)"""
+        return sum(1 for (pp, _) in self.base if pp == p)
 
     def add_obj(self, o):
         self.objnum.add(o, len(self.objs))
@@ -211,18 +293,43 @@ class Run(object):
             return [n, part.get_nb_blocks()]
         if h == "WGet":
             _, p, o, k = op
-            part, pt = self.parts[p], self.objs[o]
+            return self.get(i, p, o, k, self.objs[o])
+        if h == "WCons":
+            self.collect()
+            p = op[1]
+            part = self.parts[p]
+            part.add_partition_constraints()
+            lst = part.list_of_constraints
+            d, m = part.get_nb_blocks(), self.n_decomposed(p)
+            if len(lst) != m * m * d * (d - 1) // 2:
+                self.problem("relations-of-a-decomposed-point-missing", i, partition=p, decomposed=m, d=d,
+                             generated=len(lst), expected=m * m * d * (d - 1) // 2)
+            key = (p, m)
+            if key in self.ncons and self.ncons[key] != len(lst):
+                self.problem("constraint-list-grows-when-regenerated", i, before=self.ncons[key], now=len(lst))
+            self.ncons[key] = len(lst)
+            return [T.dump_constraint(c, LeafIds(), NoExprs()) for c in lst]
+        if h == "WSolve":
+            self.collect()
+            return self.solve(i)
+        raise ValueError(h)
+
+    def get(self, i, p, o, k, pt):
+            Point = self.Point
+            part = self.parts[p]
             d = part.get_nb_blocks()
             ctr0 = Point.counter
             try:
                 b = part.get_block(pt, k)
             except AssertionError:
-                if Point.counter != ctr0 or ((p, o) not in self.base and pt in part.blocks_dict):
+                if Point.counter != ctr0:
                     self.problem("rejected-call-changed-state", i)
                 return "AssertionError"
             first = (p, o) not in self.base
             if first:
-                blocks = part.blocks_dict[pt]
+                blocks = [part.get_block(pt, j) for j in range(d)]     # public API only (idempotent calls)
+                if blocks[k] is not b:
+                    self.problem("second-call-returned-other-block", i)
                 self.base[(p, o)] = len(self.objs)
                 self.dict_at[(p, o)] = fr_items(pt.decomposition_dict)
                 for x in blocks:
@@ -255,17 +362,7 @@ class Run(object):
                     self.problem("second-call-allocated-leaves", i, created=Point.counter - ctr0)
             num = self.objnum[b] if self.objnum.has(b) else -1
             return [T.dump_pdict(b.decomposition_dict, LeafIds()), num, Point.counter]
-        if h == "WCons":
-            p = op[1]
-            part = self.parts[p]
-            part.add_partition_constraints()
-            lst = part.list_of_constraints
-            key = (p, len(part.blocks_dict))
-            if key in self.ncons and self.ncons[key] != len(lst):
-                self.problem("constraint-list-grows-when-regenerated", i, before=self.ncons[key], now=len(lst))
-            self.ncons[key] = len(lst)
-            return [T.dump_constraint(c, LeafIds(), NoExprs()) for c in lst]
-        if h == "WSolve":
+    def solve(self, i):
             from . import recording
             w, _ = recording.solve_with(self.pep, recording.RecordingWrapper)
             sent = list(self.pep._list_of_constraints_sent_to_wrapper)
@@ -276,7 +373,7 @@ class Run(object):
             # are formulated and every one of them reaches the wrapper
             for p, part in enumerate(self.parts):
                 d = part.get_nb_blocks()
-                m = len(part.blocks_dict)
+                m = self.n_decomposed(p)
                 expected = m * m * d * (d - 1) // 2
                 how = [o for o in self.ops if o[0] == "WPart"][p]
                 if len(part.list_of_constraints) != expected:
@@ -287,9 +384,8 @@ class Run(object):
                 if n_sent != expected:
                     self.problem("partition-relations-not-sent-to-the-solver", i, partition=p, declared=list(how),
                                  sent=n_sent, expected=expected,
-                                 partitions=[(q.get_nb_blocks(), len(q.blocks_dict)) for q in self.parts])
+                                 partitions=[(q.get_nb_blocks(), self.n_decomposed(j)) for j, q in enumerate(self.parts)])
             return [T.dump_constraint(c, LeafIds(), NoExprs()) for c in sent]
-        raise ValueError(h)
 
     def solve_time_loop(self):
         """what PEP._solve_with_wrapper does with partitions (pep.py: `for partition in
@@ -297,8 +393,36 @@ class Run(object):
         from PEPit.block_partition import BlockPartition
         if [id(x) for x in BlockPartition.list_of_partitions] != [id(x) for x in self.parts]:
             self.problem("list_of_partitions-differs-from-declared", len(self.ops))
+        self.collect()
         for partition in BlockPartition.list_of_partitions:
             partition.add_partition_constraints()
+
+
+_frozen = []
+
+
+def _freeze_once():
+    """the heap of the imported libraries (numpy, cvxpy, ...) is moved out of the collector's way once, so that the
+    gc.collect() calls of the scenarios only look at the scenario's own objects"""
+    if not _frozen:
+        gc.collect()
+        gc.freeze()
+        _frozen.append(True)
+
+
+def _temporary(run, i, op):
+    """("WGetT", p, tree, ks): the combination exists only inside this helper (as in
+    `partition.get_block(g + beta * (x - x_prev), k)`); only its blocks survive, as objects of the scenario.  The
+    harness keeps None at its object number, its Fraction dictionary in run.dict_at, and no reference to it."""
+    _, p, tree, ks = op
+    n = len(run.objs)
+    run.objs.append(None)
+    run.dirty = True
+    direction = T.py_eval(tree, run.objs, [])
+    outs = [[n, T.dump_pdict(direction.decomposition_dict, LeafIds())]]
+    for k in ks:
+        outs.append(run.get(i, p, n, k, direction))
+    return outs
 
 
 # ------------------------------------------------------------------ real coordinate partitions of Q^n
@@ -326,6 +450,12 @@ class ValueTracker(object):
         acc = [Fraction(0)] * self.n
         for k, v in pt.decomposition_dict.items():
             acc = T.vec_add(acc, T.vec_scal(to_fraction(v), self.val[k.counter]))
+        return acc
+
+    def value_items(self, items):
+        acc = [Fraction(0)] * self.n
+        for k, v in items.items():
+            acc = T.vec_add(acc, T.vec_scal(v, self.val[k]))
         return acc
 
     def decomposed(self, p, pt, blocks):
@@ -362,9 +492,9 @@ def check_real(run):
         for o, base in dec:
             pt = run.objs[o]
             blocks = run.objs[base:base + d]
-            if [id(x) for x in part.blocks_dict[pt]] != [id(x) for x in blocks]:
+            if pt is not None and [id(part.get_block(pt, j)) for j in range(d)] != [id(x) for x in blocks]:
                 return dict(kind="stored-blocks-changed", partition=p, obj=o)
-            u = vt.value(pt)
+            u = vt.value_items(run.dict_at[(p, o)])          # the point's value (a temporary is gone: its dictionary)
             vals = [vt.value(b) for b in blocks]
             tot = [Fraction(0)] * vt.n
             for v in vals:
